@@ -1074,28 +1074,48 @@ def shard_bundled_c06(seed, idx, files, deadline, tier):
 # ----------------------------------------------------------------------------------------------
 # replay / corpus
 # ----------------------------------------------------------------------------------------------
-def run_input(res, impl, pid, inp):
-    """re-run one recorded input (corpus entry or replay file's `input`)"""
+def run_input(res, impl, pid, inp, drv=None):
+    """re-run one recorded input (corpus entry or replay file's `input`): P and the correspondences"""
     import verilog_view as V
     kind = inp.get("kind")
     if kind == "design":
         design, text = inp["design"], inp.get("text")
+        text = text or G.render(design, None)
         if pid == "C06":
-            pr, v, nl = eval_c06(impl, design, text or G.render(design, None))
+            pr, v, nl = eval_c06(impl, design, text)
             res.case(stable_hash(inp), True)
+            known = None
             if pr:
-                report_c06(res, impl, design, text, pr)
+                sigs = report_c06(res, impl, design, text, pr)
+                known = sigs[0] if sigs else None
+            trig = [sig for (sig, t, _) in K.C06_KNOWN if t(design)]
+            if v is not None and drv is not None:
+                corr_c06_connections(res, drv, design, v, known or (trig[0] if trig else None))
         else:
             how = inp.get("transform", "none")
             combos = [tuple(inp["options"])] if "options" in inp else OPTION_COMBOS
+            known = None
             for combo in combos:
                 rs = inp.get("rng", 1)
-                pr = c04_run(impl, design, text or G.render(design, None), how, combo, rs,
-                             bool(inp.get("escape_names")))
+                pr = c04_run(impl, design, text, how, combo, rs, bool(inp.get("escape_names")))
                 res.case(stable_hash([inp, combo]), True)
                 if pr:
-                    report_c04(res, impl, design, text, how, combo, rs, pr)
+                    sigs = report_c04(res, impl, design, text, how, combo, rs, pr)
+                    known = sigs[0] if sigs else None
                     break
+            if drv is not None:
+                try:
+                    nl = transform(impl, impl.parse(text), how)
+                except Exception:                             # noqa: BLE001
+                    nl = None
+                if nl is not None:
+                    trig = [sig for (sig, t, _) in K.C04_KNOWN if t(design)]
+                    ext = how == "clone" and top_external(nl)
+                    if ext:
+                        trig = [K.SIG_C04_CLONE] + trig
+                    corr_c04_writer(res, drv, impl, nl, V.view(nl), known or (trig[0] if trig else None), dict(inp))
+                    if not ext:
+                        corr_c04_order(res, drv, nl, dict(inp))
     elif kind == "bundled":
         files = [f for f in bundled_texts(1 << 30) if f[0] == inp["file"]]
         if pid == "C06":
@@ -1105,9 +1125,10 @@ def run_input(res, impl, pid, inp):
         for k in ("spec", "corr"):
             res[k].extend(r[k])
         res["evaluations"] += r["evaluations"]
-    elif kind in ("getWires", "portmap"):
-        r = shard_blocks_reader(0, 0, 300, time.time() + 60)
+    elif kind in ("getWires", "portmap", "blocks"):
+        r = shard_blocks_reader(inp.get("seed", 0), 0, 600, time.time() + 120)
         res["spec"].extend(r["spec"])
+        res["corr"].extend(r["corr"])
         res["evaluations"] += r["evaluations"]
     else:
         res["obligations"].append(("replay input understood", False, "unknown input kind %r" % kind))
@@ -1116,6 +1137,7 @@ def run_input(res, impl, pid, inp):
 def shard_corpus(pid, paths):
     res = ShardResult()
     impl = Impl()
+    drv = lean.Driver("drv_verilog")
     try:
         for p in paths:
             try:
@@ -1125,9 +1147,10 @@ def shard_corpus(pid, paths):
                 res["obligations"].append(("corpus file readable: " + os.path.basename(p), False, str(e)))
                 continue
             inp = j.get("input", j)
-            run_input(res, impl, pid, inp)
+            run_input(res, impl, pid, inp, drv)
             res.dist("corpus")
     finally:
+        drv.close()
         impl.close()
     return res
 
@@ -1144,14 +1167,21 @@ def run(ctx):
             j = json.load(f)
         res = ShardResult()
         impl = Impl()
+        drv = lean.Driver("drv_verilog")
         try:
             if j.get("kind") == "obligation-no-longer-checks":
+                blocks = False
                 for c in j.get("broken_correspondence", [])[:5]:
                     if isinstance(c.get("input"), dict) and c["input"].get("kind"):
-                        run_input(res, impl, pid, c["input"])
+                        run_input(res, impl, pid, c["input"], drv)
+                    else:
+                        blocks = True
+                if blocks:       # a divergence of a building block: re-run the block drives of that run
+                    run_input(res, impl, pid, {"kind": "blocks", "seed": j.get("seed", 0)}, drv)
             else:
-                run_input(res, impl, pid, j.get("input", j))
+                run_input(res, impl, pid, j.get("input", j), drv)
         finally:
+            drv.close()
             impl.close()
         ctx.merge_shard(res)
         ctx.rule = "replay of one recorded input"
